@@ -267,5 +267,39 @@ def register(g):
         write('SlashTable.lean', 'import RjModel.Model.Root\nnamespace Rj.Generated\ndef slashTableRecognised : Bool := ' + ('true' if ok else 'false') +
               '\ndef slashTable : List SlashRow := [\n' + ',\n'.join(out) + '\n]\nend Rj.Generated\n')
 
+    def session():
+        """features of the remote doer's and the boss's session handling that the link theorems (C10) rest on"""
+        import re as _re
+        dr = strip_comments(read('src/doer.rs'))
+        dm = fn_body(dr, 'doer_main') or ''
+        def inside_loop(body, idx):
+            # is position idx inside the block of a loop / while / for of this function body?
+            for m in _re.finditer(r'\b(loop|while|for)\b[^{;]*\{', body):
+                if m.start() > idx: break
+                depth, j = 0, m.end() - 1
+                while j < len(body):
+                    if body[j] == '{': depth += 1
+                    elif body[j] == '}':
+                        depth -= 1
+                        if depth == 0: break
+                    j += 1
+                if m.end() <= idx < j:
+                    return True
+            return False
+        accepts = [m.start() for m in _re.finditer(r'\.accept\(\)', dm)]
+        accept_once = len(accepts) == 1 and not inside_loop(dm, accepts[0])
+        comms = [m.start() for m in _re.finditer(r'AsyncEncryptedComms::new\(', dm)]
+        one_link = len(comms) == 1 and not inside_loop(dm, comms[0])
+        key_reads = len(_re.findall(r'stdin\(\)\.read_line\(', dm))
+        bl = strip_comments(read('src/boss_launch.rs'))
+        lv = fn_body(bl, 'launch_doer_via_ssh') or ''
+        fresh_key = _re.search(r'Aes128Gcm::generate_key\(\s*&mut\s+OsRng\s*\)', lv) is not None and 'lazy_static' not in lv and not _re.search(r'static\s+\w*KEY', bl)
+        f = dict(doerAcceptsOnce=accept_once, doerOneLink=one_link, doerReadsKeyOnce=key_reads == 1, keyGeneratedPerLaunch=fresh_key)
+        for k, v in f.items():
+            if not v: status['session:' + k] = 'not recognised / differs from the reference'
+        b = lambda x: 'true' if x else 'false'
+        write('Session.lean', 'namespace Rj.Generated\nstructure SessionFeatures where\n  doerAcceptsOnce : Bool\n  doerOneLink : Bool\n  doerReadsKeyOnce : Bool\n  keyGeneratedPerLaunch : Bool\n  deriving DecidableEq, Repr\n'
+              'def sessionFeatures : SessionFeatures := ⟨' + ', '.join(b(f[k]) for k in ('doerAcceptsOnce', 'doerOneLink', 'doerReadsKeyOnce', 'keyGeneratedPerLaunch')) + '⟩\nend Rj.Generated\n')
+
     g_ = g
-    return {'defaults': defaults, 'skeletons': skeletons, 'sites': sites, 'shutdown': shutdown, 'panic_sites': panic_sites, 'walker': walker, 'slash_table': slash_table}
+    return {'session': session, 'defaults': defaults, 'skeletons': skeletons, 'sites': sites, 'shutdown': shutdown, 'panic_sites': panic_sites, 'walker': walker, 'slash_table': slash_table}
